@@ -1628,3 +1628,15 @@ def _hash_feed(I, st, v):
 def m_hash_prim(I, st, fr, args, path, gargs, t):
     _hash_feed(I, st, deref(I, st, args[0]))
     return UNIT
+
+
+@model(r'core::ops::Range::<Idx>::contains|core::ops::range::Range::<Idx>::contains|core::ops::RangeInclusive::<Idx>::contains|core::ops::range::RangeInclusive::<Idx>::contains')
+def m_range_contains(I, st, fr, args, path, gargs, t):
+    # (a..b).contains(&x) = a <= x && x < b   /   (a..=b).contains(&x) = a <= x && x <= b   (seen in debug_assert!s added by defensive rewrites)
+    r, x = deref(I, st, args[0]), deref(I, st, args[1])
+    if not (isinstance(r, Agg) and len(r.fields) >= 2 and isinstance(r.fields[0], Int) and isinstance(r.fields[1], Int) and isinstance(x, Int)):
+        raise Stop('Range::contains on %r' % (r,))
+    incl = 'RangeInclusive' in path or r.kind.endswith('RangeInclusive')
+    if not st.truth(I.compare(st, 'Le', r.fields[0], x)):
+        return K(0, 'bool')
+    return K(int(st.truth(I.compare(st, 'Le' if incl else 'Lt', x, r.fields[1]))), 'bool')
